@@ -2648,7 +2648,7 @@ def _raw(BioSeq, data):
     return s
 
 
-LEVEL_TEXT = ('Machine-checked Coq theorems (70, all closed under the global context), for every list/str and every integer or None bound: '
+LEVEL_TEXT = ('Machine-checked Coq theorems (71, all closed under the global context), for every list/str and every integer or None bound: '
               'CPython slice normalisation (PySlice_AdjustIndices) yields firstn/skipn of the clamped bounds for contiguous slices, the '
               'slice-length formula and the element law r[k] = s[start + k*step] for every step, s[::-1] = rev s, s[:k] + s[k:] = s, the '
               'negative-index law; BioSeq indexing/slicing, len, +, +=, right + equal the str operation on the residue string; == against any '
@@ -2679,8 +2679,8 @@ LEVEL_TEXT = ('Machine-checked Coq theorems (70, all closed under the global con
               'str_remove_affix (removeprefix/removesuffix cut exactly one copy, nothing otherwise); str_predicates (isalpha = non-empty '
               'and letters only; isascii; on letters-only strings isupper/islower are the fixpoints of upper/lower); str_split_sep '
               '(split and rsplit with a separator and ANY maxsplit: join(sep, pieces) = s, at least one and at most maxsplit+1 pieces, '
-              'empty separator = ValueError); str_split_ws (split(): pieces non-empty, free of white space, concatenating to the '
-              'non-white-space characters); str_splitlines (keepends: concat = s; otherwise no piece holds a line break and concat = the '
+              'empty separator = ValueError); str_split_ws (split() and rsplit(): pieces non-empty, free of white space, concatenating to the '
+              'non-white-space characters); str_split_count (number of pieces = min(count(sep), maxsplit) + 1); str_splitlines (keepends: concat = s; otherwise no piece holds a line break and concat = the '
               'other characters); str_maketrans (ValueError iff lengths differ, z deletes, unmapped kept, LAST duplicate key wins, '
               'translate distributes over +); str_tailmatch_tuple; edit_like_str / query_like_str now cover 18 edits and 21 queries. '
               'GAP-AWARE ANY STEP: gap_any_step_as_is (start/stop are mapped to columns by adj - five cases - and the step is applied '
